@@ -42,7 +42,7 @@ func init() {
 			"starting = constructing and starting/closing the real multiplexer over the in-memory network (the gRPC management server and OS listeners are not started)",
 		},
 		Units:          units,
-		QuickBudget:    60,
+		QuickBudget:    240,
 		ThoroughBudget: 600,
 	})
 }
